@@ -12,6 +12,7 @@ relative order, or contradicts itself); a block is a list of entries
 does not fix (or gets wrong, see notes/C21.md) are None.
 """
 import itertools
+import os
 
 FS_TOKEN = {"any_space_1": "aspc1", "any_space_2": "aspc2",
             "any_discontinuous_space_1": "adspc1",
@@ -217,11 +218,16 @@ def match(items, observed):
                     good += 1
                 else:
                     break
-            if best is None or good > best[0]:
-                best = (good, flat)
+            # ties: prefer the order whose next entry resembles what is there
+            like = 0
+            if good < len(flat) and pos + good < len(observed):
+                like = len(os.path.commonprefix(
+                    [flat[good]["role"], observed[pos + good][0]]))
+            if best is None or (good, like) > best[:2]:
+                best = (good, like, flat)
             if good == len(flat):
                 break
-        good, flat = best
+        good, _like, flat = best
         if good != len(flat):
             bad = pos + good
             obs = tuple(observed[bad]) if bad < len(observed) else None
